@@ -199,6 +199,11 @@ UsesDev(s, cfg, st, d) == ReadEvent(s, cfg, st, {d}) # ReadEvent(s, cfg, st, {})
 (* Result: [ok, e, start, end, st, calls]; cfg is restored by construction *)
 (* (the spec never changes it) - the implementation's temporary change of  *)
 (* trim_text_start is observable only through config(), which traces log.  *)
+(* The design also switches trim_text_end off inside the loop: the span    *)
+(* must end at the '<' of the end tag (C12), and a trailing whitespace-only*)
+(* run must therefore not be merged into the call that reads the end tag.  *)
+(* The code reaches the same spans because it emits that run as an (empty) *)
+(* Text event of its own (finding C16-1); events are not observable here.  *)
 RECURSIVE RteLoop(_, _, _, _, _, _, _, _)
 RteLoop(s, cfg, st, dev, nm, depth, start, fuel) ==
     LET end == BufferPosition(st)
@@ -214,5 +219,5 @@ RteLoop(s, cfg, st, dev, nm, depth, start, fuel) ==
     ELSE RteLoop(s, cfg, r.st, dev, nm, depth, start, fuel - 1)
 
 ReadToEnd(s, cfg, st, dev, nm) ==
-    RteLoop(s, [cfg EXCEPT !.tts = FALSE], st, dev, nm, 0, BufferPosition(st), 2 * Len(s) + 4)
+    RteLoop(s, [cfg EXCEPT !.tts = FALSE, !.tte = FALSE], st, dev, nm, 0, BufferPosition(st), 2 * Len(s) + 4)
 =============================================================================
